@@ -15,6 +15,8 @@ import TdVerif.Lemmas.C08ShapeOps
 import TdVerif.Lemmas.C08Mask
 import TdVerif.Lemmas.C08Perm
 import TdVerif.Lemmas.C08Cat
+import TdVerif.Lemmas.C08Stack
+import TdVerif.Lemmas.C08Two
 
 namespace TdVerif.Props.C08
 open TdVerif.C08
@@ -240,6 +242,22 @@ theorem setitem_write_through [Inhabited α] (L : Lazy α) (b : Shape) (keys : L
     ∀ k ∈ keys, IsSetT ix ((absL L).leaf k) (v.leaf k) ((absL L').leaf k) :=
   setitem_refines_core L b keys feat hU hne0 ix hp hne hadv hnd hdist v hvk hvl bd hbd L' h
 
+/-- **Writes with a rank-1 boolean mask on the stack dim** (`lazy[…, mask, …] = v`): the members
+the mask keeps receive, in order, the successive slices of the value along
+`split_dim = mask_loc - num_single` — `IsSetT` of the dense stack, as in `setitem_write_through`.
+(`split_dim` is the expression repaired by the fix commit "None items before a mask".) -/
+theorem setitem_write_through_mask1 [Inhabited α] (L : Lazy α) (b : Shape) (keys : List String)
+    (feat : String → Shape) (hU : Uniform L b keys feat) (hne0 : L.members ≠ []) (ix : List Ix)
+    (hp : PlainM L.sd ix) (hne : ∀ it ∈ ix, it ≠ Ix.ell) (hadv : AtMostOneAdv ix)
+    (m : T Bool) (hitem : (splitRec L.sd ix).item = some (.mask m))
+    (hnd : NoDupTargets (splitRec L.sd ix).out)
+    (v : TD α) (hvk : v.keys = keys) (hvl : ∀ k ∈ keys, (v.leaf k).shape = v.batch ++ feat k)
+    (bd : Shape) (hbd : idxShape ix (absL L).batch = some bd)
+    (L' : Lazy α) (h : lazySetCore L ix v = some L') :
+    L'.sd = L.sd ∧ Uniform L' b keys feat ∧ L'.members.length = L.members.length ∧
+    ∀ k ∈ keys, IsSetT ix ((absL L).leaf k) (v.leaf k) ((absL L').leaf k) :=
+  setitem_refines_mask1 L b keys feat hU hne0 ix hp hne hadv m hitem hnd v hvk hvl bd hbd L' h
+
 /-- **Writes, stage 1** against the executable dense spec: for a basic index (ints, slices,
 None) the dense stack of the members after `lazy[ix] = v` IS `dense[ix] = v` (batch size, keys,
 every value), whenever both accept. -/
@@ -456,6 +474,82 @@ theorem cat_refines [Inhabited α] (L1 L2 : Lazy α) (b1 b2 : Shape) (keys : Lis
         absL L' ≈ TD.cat2 (absL L1) (absL L2) d) :=
   cat_refines2 L1 L2 b1 b2 keys feat hU1 hU2 hne1 hne2 hbl dim L' h
 
+/-- **`torch.stack([L1, …, Lk], dim)` (no `out=`) of lazy stacks that share their stack dim is the
+dense stack**: the i-th members are densely stacked along the shifted `dim`, the results lazily
+stacked along the stack dim (shifted when the new dim lands at or before it).  Any number of
+operands.  (Operands with *different* stack dims take the generic dense path since the fix commit
+"torch.stack of lazy stacks that are stacked along different dims".) -/
+theorem stack_refines_dense [Inhabited α] (Ls : List (Lazy α)) (b : Shape) (keys : List String) (feat : String → Shape)
+    (n : Nat) (hn : 0 < n)
+    (hU : ∀ L ∈ Ls, Uniform L b keys feat) (hlen : ∀ L ∈ Ls, L.members.length = n)
+    (dim : Int) (L' : Lazy α) (h : lazyStackOp Ls dim = some L') :
+    ∃ (L0 : Lazy α) (d : Nat), Ls.head? = some L0 ∧
+      (d : Int) = (if dim < 0 then (L0.batch.length : Int) + dim + 1 else dim) ∧ d ≤ L0.batch.length ∧
+      (∀ L ∈ Ls, L.sd = L0.sd) ∧
+      absL L' ≈ stackTD (Ls.map absL) d :=
+  stack_refines Ls b keys feat n hn hU hlen dim L' h
+
+/-! ## update_, insert / append -/
+
+/-- **`lazy.update_(v)`**: piece `i` of every entry of `v` lands in member `i`; the updated keys
+read back as `v`'s entries, the other keys are untouched. -/
+theorem update_write_through [Inhabited α] (L L' : Lazy α) (v : TD α) (h : lazyUpdate_ L v = some L')
+    (hne : L.members ≠ []) (hsd : ∀ k ∈ v.keys, L.sd < (v.leaf k).shape.length)
+    (hvb : ∀ k ∈ v.keys, at0 (v.leaf k).shape L.sd = at0 v.batch L.sd) :
+    L'.sd = L.sd ∧ L'.members.length = L.members.length ∧
+    (∀ k ∈ v.keys, (absL L').leaf k ≈ₜ v.leaf k) ∧
+    (∀ k, k ∉ v.keys → (absL L').leaf k = (absL L).leaf k) :=
+  update__refines L L' v h hne hsd hvb
+
+/-- **`lazy.insert(index, m)` / `append(m)`** is Python's `list.insert` on the member list (negative
+index from the end, clamped), keeps the stack uniform and rejects a member of another batch size;
+with `select_at_sd_is_member` this says position `j` of the dense stack is the inserted member at
+the insertion point and the old members elsewhere. -/
+theorem insert_is_list_insert [Inhabited α] (L L' : Lazy α) (b : Shape) (keys : List String) (feat : String → Shape)
+    (hU : Uniform L b keys feat) (index : Int) (m : TD α)
+    (hmk : m.keys = keys) (hml : ∀ k ∈ keys, (m.leaf k).shape = b ++ feat k)
+    (hne : L.members ≠ []) (h : lazyInsert L index m = some L') :
+    ∃ i : Nat, i ≤ L.members.length ∧
+      (i : Int) = (if index < 0 then max 0 ((L.members.length : Int) + index) else min index (L.members.length : Int)) ∧
+      L' = { L with members := L.members.insertIdx i m } ∧ Uniform L' b keys feat ∧ m.batch = b :=
+  insert_refines L L' b keys feat hU index m hmk hml hne h
+
+/-! ## stacks of stacks -/
+
+/-- **Reads of a lazy stack whose members are lazy stacks compose**: for an Ellipsis-free index
+whose item on the OUTER stack dim is an integer, a slice, absent or a rank-1 mask, if every inner
+read `inner[rest]` (what `self.tensordicts[i][_idx]` returns, `memberRead`) materialises to the
+dense inner stack indexed by `rest` (`InnerOK`), then whatever the outer `__getitem__` builds out
+of the inner results — the selected inner result, or a lazy stack of them at
+`stack_dim - num_single + num_none - num_squash` resp. `mask_loc - num_single` — materialises to
+`dense_of_dense[index]`; an outer mask that keeps nothing gives an empty stack of the dense batch
+size.  (Unbounded: any number / size of inner stacks, any two stack dims, any such index.) -/
+theorem getitem_stack_of_stacks_composes [Inhabited α] (Lo : Lazy2 α) (bIn : Shape) (keys : List String)
+    (feat : String → Shape) (sdIn nIn : Nat) (hU : Uniform2 Lo bIn keys feat sdIn nIn)
+    (hne0 : Lo.members ≠ []) (ix : List Ix)
+    (hp : PlainM Lo.sd ix) (hne : ∀ it ∈ ix, it ≠ Ix.ell) (hadv : AtMostOneAdv ix)
+    (hnt : ∀ t, (splitRec Lo.sd ix).item ≠ some (.tens t))
+    (hin : InnerOK Lo (splitRec Lo.sd ix).out)
+    (r2 : LRes2 α) (hr : lazyGetCore2 Lo ix = some r2)
+    (d : TD α) (hd : (abs2 Lo).index ix = some d) : ReadOK2 r2 d :=
+  getitem2_refines_core Lo bIn keys feat sdIn nIn hU hne0 ix hp hne hadv hnt hin r2 hr d hd
+
+/-- **`lazy_of_lazy[index]` is `dense_of_dense[index]`** (Ellipsis allowed), the inner hypothesis
+discharged by the one-level theorems: the item on the outer stack dim is an integer / slice /
+absent / rank-1 mask, the remainder index is in the proved one-level grammar for the inner stacks
+(`PlainM sdIn rest`: its mask, if it touches the inner stack dim, is a rank-1 mask on it), and no
+inner read is an empty stack. -/
+theorem getitem_stack_of_stacks_refines [Inhabited α] (Lo : Lazy2 α) (bIn : Shape) (keys : List String)
+    (feat : String → Shape) (sdIn nIn : Nat) (hU : Uniform2 Lo bIn keys feat sdIn nIn)
+    (hne0 : Lo.members ≠ []) (ix : List Ix) (hadv : AtMostOneAdv ix)
+    (hp : ∀ ix', convertEllipsis ix Lo.batch.length = some ix' →
+      PlainM Lo.sd ix' ∧ (∀ t, (splitRec Lo.sd ix').item ≠ some (.tens t)) ∧
+      PlainM sdIn (splitRec Lo.sd ix').out ∧
+      ∀ Li ∈ Lo.members, ∀ bb, lazyGetCore Li (splitRec Lo.sd ix').out ≠ some (.empty bb))
+    (r2 : LRes2 α) (hr : lazyGet2 Lo ix = some r2)
+    (d : TD α) (hd : (abs2 Lo).getitem ix = some d) : ReadOK2 r2 d :=
+  getitem2_refines_all Lo bIn keys feat sdIn nIn hU hne0 ix hadv hp r2 hr d hd
+
 /-! ## non-vacuity: a concrete 3-member stack (batch [2], stack dim 1, key `a`) -/
 
 def exM (i : Nat) : TD Int := { batch := [2], keys := ["a"], leaf := fun _ => T.arange (10 * i) [2] }
@@ -486,5 +580,18 @@ example : (match lazyGet exL [.ell, .int 0] with
 -- `_set_str` then `_get_str`
 example : (lazySetStr exL "a" (T.arange 100 [2, 3])).isSome = true := by decide
 example : lazySetStr exL "a" (T.arange 100 [2, 2]) = none → True := fun _ => trivial
+-- stack of stacks: two copies of `exL` stacked at dim 0 (batch [2, 2, 3]); `lol[1, :, 2]` is
+-- `inner_1[:, 2]` = member 2 of the second inner stack
+def exL2 : Lazy2 Int := ⟨[exL, exL], 0⟩
+example : Uniform2 exL2 [2] ["a"] (fun _ => []) 1 3 :=
+  ⟨by
+    intro Li hLi
+    simp only [exL2, List.mem_cons, List.not_mem_nil, or_false, or_self] at hLi
+    subst hLi
+    exact ⟨⟨by simp [exL, exM], by simp [exL, exM], by simp [exL, exM, T.arange], by simp [exL]⟩, rfl, rfl⟩,
+   by decide, by decide, by decide⟩
+example : (match lazyGet2 exL2 [.int 1, Ix.full, .int 2] with
+    | some r => ((absR2 r).leaf "a").toList | none => []) = [20, 21] := by decide
+example : ((abs2 exL2).getitem [.int 1, Ix.full, .int 2]).isSome = true := by decide
 
 end TdVerif.Props.C08
